@@ -60,6 +60,9 @@ pub enum SK {
     BinaryModified,
     BinaryAdded,
     BinaryDeleted,
+    /// renamed / copied with changes, binary: rename/copy lines, then `Binary files a/old and b/new differ`
+    RenamedBinary,
+    CopiedBinary,
     SubmoduleShort,
     EmptyNew,
     EmptyDeleted,
@@ -96,6 +99,8 @@ impl SK {
             SK::BinaryModified => "binary-modified",
             SK::BinaryAdded => "binary-added",
             SK::BinaryDeleted => "binary-deleted",
+            SK::RenamedBinary => "renamed-binary",
+            SK::CopiedBinary => "copied-binary",
             SK::SubmoduleShort => "submodule-short",
             SK::EmptyNew => "empty-new",
             SK::EmptyDeleted => "empty-deleted",
@@ -424,6 +429,8 @@ pub fn gen_section(t: &mut Tape, o: &GenOpts) -> Section {
         (SK::EmptyDeleted, hk),
         (SK::Combined, cb),
         (SK::PlainDiffU, pl),
+        (SK::RenamedBinary, hk),
+        (SK::CopiedBinary, hk),
     ];
     let w: Vec<u32> = kinds.iter().map(|k| k.1).collect();
     let kind = kinds[t.weighted(&w)].0;
@@ -432,7 +439,7 @@ pub fn gen_section(t: &mut Tape, o: &GenOpts) -> Section {
 
 pub fn gen_section_of_kind(t: &mut Tape, o: &GenOpts, kind: SK) -> Section {
     let p1 = text::path(t, &o.paths);
-    let renamed = matches!(kind, SK::RenamedPure | SK::RenamedChanged | SK::CopiedPure | SK::CopiedChanged);
+    let renamed = matches!(kind, SK::RenamedPure | SK::RenamedChanged | SK::CopiedPure | SK::CopiedChanged | SK::RenamedBinary | SK::CopiedBinary);
     let mut p2 = if renamed { text::path(t, &o.paths) } else { p1.clone() };
     if renamed && p2 == p1 {
         p2 = format!("new_{}", p2);
@@ -619,19 +626,19 @@ pub fn render_section(sec: &Section, si: usize, out: &mut Vec<InLine>) {
                     push(out, format!("deleted file mode {}", sec.old_mode), Role::FileOp { sec: si });
                     push(out, "index 89abcde..0000000".to_string(), Role::Extended { sec: si });
                 }
-                SK::RenamedPure | SK::RenamedChanged => {
+                SK::RenamedPure | SK::RenamedChanged | SK::RenamedBinary => {
                     push(out, format!("similarity index {}%", if sec.kind == SK::RenamedPure { 100 } else { 87 }), Role::Extended { sec: si });
                     push(out, format!("rename from {}", sec.old_path), Role::RenameCopy { sec: si });
                     push(out, format!("rename to {}", sec.new_path), Role::RenameCopy { sec: si });
-                    if sec.kind == SK::RenamedChanged {
+                    if sec.kind != SK::RenamedPure {
                         push(out, idx(&sec.new_mode), Role::Extended { sec: si });
                     }
                 }
-                SK::CopiedPure | SK::CopiedChanged => {
+                SK::CopiedPure | SK::CopiedChanged | SK::CopiedBinary => {
                     push(out, format!("similarity index {}%", if sec.kind == SK::CopiedPure { 100 } else { 70 }), Role::Extended { sec: si });
                     push(out, format!("copy from {}", sec.old_path), Role::RenameCopy { sec: si });
                     push(out, format!("copy to {}", sec.new_path), Role::RenameCopy { sec: si });
-                    if sec.kind == SK::CopiedChanged {
+                    if sec.kind != SK::CopiedPure {
                         push(out, idx(&sec.new_mode), Role::Extended { sec: si });
                     }
                 }
@@ -647,7 +654,7 @@ pub fn render_section(sec: &Section, si: usize, out: &mut Vec<InLine>) {
                 }
             }
             match sec.kind {
-                SK::BinaryModified => push(out, format!("Binary files {}{} and {}{} differ", a, sec.old_path, b, sec.new_path), Role::Binary { sec: si }),
+                SK::BinaryModified | SK::RenamedBinary | SK::CopiedBinary => push(out, format!("Binary files {}{} and {}{} differ", a, sec.old_path, b, sec.new_path), Role::Binary { sec: si }),
                 SK::BinaryAdded => push(out, format!("Binary files /dev/null and {}{} differ", b, sec.new_path), Role::Binary { sec: si }),
                 SK::BinaryDeleted => push(out, format!("Binary files {}{} and /dev/null differ", a, sec.old_path), Role::Binary { sec: si }),
                 _ => {}
